@@ -37,6 +37,13 @@ from struct import pack, unpack
 from lib import vfmt
 
 PROPERTY = 'C11'
+SOURCE_SITES = [
+    dict(name='genExhausted', file='scales/mux/sink.py', func='TagPool.get', kind='cond',
+         marker='self._next == self._max_tag',
+         varmap={'self._next': 'next', 'self._max_tag': 'maxTag'}, params=['next', 'maxTag'],
+         obligation='theorem genExhausted_eq (next maxTag : Int) : genExhausted next maxTag = decide (next + 1 = maxTag) := by\n'
+                    '  unfold genExhausted; congr 1; apply propext; constructor <;> intro h <;> omega'),
+]
 SOURCE_IMPORTS = ['ScalesModel.Model.TagPool']
 SOURCE_CONSTANTS = {
     'Scales.TagPool.Pool.init.next': ('from scales.mux.sink import TagPool', "TagPool(10, 's', 'h')._next"),
